@@ -67,6 +67,11 @@ def yields_only_empty(ctx, y):
             r_ = c.reach([te[1]])
             if any(e['kind'] == 'none' and e['point'] in r_ for e in c.exits()):
                 ok_all = False
+        # ... and a queue is left out ONLY because it is not empty: every None is answered under the false edge of
+        # is_empty (`if counter > 0 && q.is_empty()` leaves empty queues out whenever the counter is wrong)
+        for e in c.exits():
+            if e['kind'] == 'none' and not any(c.edge_dominates(fe, e['point']) for (_bi, _c, _te, fe, _cs) in guards):
+                ok_all = False
     # `.filter(|(_, q)| q.is_empty())` spelling: the iterator handed out is (derived from) a filter whose
     # predicate is exactly MemQueue::is_empty of the item
     fl = None
@@ -397,7 +402,7 @@ def cmp_bounds(b, block):
         if o[0] == 'rv' and o[2]['k'] == 'binop':
             op = o[2]['op']
             a, bb = o[2]['a'], o[2]['b']
-            ca, cb = op_const_bits(a), op_const_bits(bb)
+            ca, cb = b.const_eval(a), b.const_eval(bb)
             INF = float('inf')
             if cb is not None and ca is None:
                 x, k = a, cb
